@@ -534,6 +534,10 @@ fn build_pool() -> Vec<Value> {
     p.push(east(8 * 3600).from_utc_datetime(&y2020).into());
     p.push(east(-5 * 3600).from_utc_datetime(&y2020).into());
     p.push(east(1).from_utc_datetime(&y2020).into());
+    let y2020n = d(2020, 1, 1).and_time(t(7322, 1));
+    p.push(east(0).from_utc_datetime(&y2020n).into()); // same second, other sub-second part
+    p.push(east(8 * 3600).from_utc_datetime(&y2020n).into());
+    p.push(chrono::Local.from_utc_datetime(&y2020n).into());
     // time
     let td = |y, o| time::Date::from_ordinal_date(y, o).unwrap();
     let tt = |h, m, s, n| time::Time::from_hms_nano(h, m, s, n).unwrap();
@@ -563,6 +567,12 @@ fn build_pool() -> Vec<Value> {
     p.push(base.assume_utc().into());
     p.push(base.assume_utc().to_offset(off(-5 * 3600)).into());
     p.push(base.assume_offset(off(1)).into());
+    // the same second, other sub-second parts (and the same instant again through another offset)
+    let base1 = time::PrimitiveDateTime::new(td(2020, 1), tt(2, 2, 2, 1));
+    let base9 = time::PrimitiveDateTime::new(td(2020, 1), tt(2, 2, 2, 999_999_999));
+    p.push(base1.assume_utc().into());
+    p.push(base9.assume_utc().into());
+    p.push(base1.assume_utc().to_offset(off(8 * 3600)).into());
     // uuid / decimals
     p.push(V::from(None::<uuid::Uuid>));
     for x in [0u128, u128::MAX, 0x936DA01F_9ABD_4D9D_80C7_02AF85C822A8, 1, 1 << 127] {
